@@ -7955,3 +7955,109 @@ func ruleWireFieldUsed(c *Ctx) {
 	}
 	c.Floor("decoded fields of wire types", n, 20)
 }
+
+// ruleEstimatorPrefixes (C17): a size estimator that starts from the size of a header with *empty* witness scripts
+// (block.expectedHeaderSizeWithEmptyWitness) and adds the length of real scripts has to add the growth of the length
+// prefixes too - one byte up to 252, three from 253 on. The sibling estimator (GetExpectedBlockSizeWithoutTransactions)
+// takes every prefix from io.GetVarSize. A script length is recognisable as a product with a quantity that varies
+// (signatures x m, keys x n): every non-constant factor of a product in such a function is also mentioned - directly
+// or through the single definition of a local - in the argument of an io.GetVarSize call (finding 88: constant
+// prefixes made GetExpectedHeaderSize exact for 5..7 validators only).
+func ruleEstimatorPrefixes(c *Ctx) {
+	pk := c.P.Pkg("pkg/core/block")
+	if pk == nil {
+		c.Lost("estimator-prefixes.pkg", "package block not loaded")
+		return
+	}
+	info := pk.TypesInfo
+	nfn := 0
+	for _, fd := range c.P.AllFuncDecls() {
+		if fd.Pkg != pk || fd.Decl.Body == nil {
+			continue
+		}
+		base := false
+		ast.Inspect(fd.Decl.Body, func(x ast.Node) bool {
+			if id, ok := x.(*ast.Ident); ok && id.Name == "expectedHeaderSizeWithEmptyWitness" {
+				if v, ok := info.ObjectOf(id).(*types.Var); ok && v.Parent() == pk.Types.Scope() {
+					base = true
+				}
+			}
+			return true
+		})
+		if !base || fd.Decl.Name.Name == "init" {
+			continue
+		}
+		nfn++
+		f := c.P.NewFuncCFG(fd)
+		// non-constant factors of products
+		factors := map[types.Object]token.Pos{}
+		inspectNoLit(fd.Decl.Body, func(x ast.Node) bool {
+			be, ok := x.(*ast.BinaryExpr)
+			if !ok || be.Op != token.MUL {
+				return true
+			}
+			for _, side := range []ast.Expr{be.X, be.Y} {
+				if tv := info.Types[side]; tv.Value != nil {
+					continue
+				}
+				ast.Inspect(side, func(y ast.Node) bool {
+					if id, ok := y.(*ast.Ident); ok {
+						if v, ok := info.ObjectOf(id).(*types.Var); ok && !v.IsField() {
+							if _, seen := factors[v]; !seen {
+								factors[v] = id.Pos()
+							}
+						}
+					}
+					return true
+				})
+			}
+			return true
+		})
+		// what the arguments of io.GetVarSize mention
+		covered := map[types.Object]bool{}
+		var expand func(e ast.Node, depth int)
+		expand = func(e ast.Node, depth int) {
+			ast.Inspect(e, func(y ast.Node) bool {
+				id, ok := y.(*ast.Ident)
+				if !ok {
+					return true
+				}
+				v, ok := info.ObjectOf(id).(*types.Var)
+				if !ok || covered[v] {
+					return true
+				}
+				covered[v] = true
+				if depth < 3 && !f.params[v] {
+					for _, d := range f.defs[v] {
+						for _, r := range d.rhs {
+							expand(r, depth+1)
+						}
+					}
+				}
+				return true
+			})
+		}
+		inspectNoLit(fd.Decl.Body, func(x ast.Node) bool {
+			if call, ok := x.(*ast.CallExpr); ok && f.calleeSym(call) == "pkg/io.GetVarSize" {
+				for _, a := range call.Args {
+					expand(a, 0)
+				}
+			}
+			return true
+		})
+		var missing []string
+		for v := range factors {
+			if !covered[v] {
+				missing = append(missing, v.Name())
+			}
+		}
+		sort.Strings(missing)
+		key := shortSym(FuncKey(fd.Obj))
+		if len(missing) == 0 {
+			c.OK(key, c.P.Pos(fd.Decl.Pos()), fmt.Sprintf("%d varying factors of script lengths, each behind an io.GetVarSize length prefix", len(factors)))
+		} else {
+			c.Fail(key, c.P.Pos(fd.Decl.Pos()), fmt.Sprintf("%s starts from the size of a header with empty witness scripts and adds script lengths that vary with %s, but takes no length prefix from io.GetVarSize over them: the prefix of a byte string is one byte up to 252 bytes and three from 253 on, so a constant allowance is right for a band of sizes only (the invocation script crosses the border at 4 signatures, the verification script at 8 keys) - the estimate differs from the length of the encoding outside it", FuncKey(fd.Obj), strings.Join(missing, ", ")))
+		}
+	}
+	c.Floor("estimators built on expectedHeaderSizeWithEmptyWitness", nfn, 2)
+}
